@@ -182,6 +182,27 @@ def oracle_sid(ctx, case, impl, objs):
         ctx.fail("C13/from_benchmark_id/unequal-id/__eq__", f"{s!r}: parsed id has equal fields but == is False", case)
     if r["restr"] != s:
         ctx.fail("C13/from_benchmark_id/prints-differently", f"{s!r} parses back to an id printing {r['restr']!r}", case)
+    # printing is a function of the CURRENT field values: print, reassign a field, print again (query -> mutate -> query)
+    beh = {"S": "T", "T": "S", "P": "I", "I": "P"}
+    for attr, key, new in (("map_id", "map_id", (raw["map_id"] or 1) + 1),
+                           ("configuration_id", "config", (raw["config"] or 1) + 2),
+                           ("obstacle_behavior", "beh", beh.get(raw["beh"], raw["beh"])),
+                           ("cooperative", "coop", not raw["coop"])):
+        if raw.get("beh") is None and attr != "map_id":
+            continue                       # map ids have no configuration part to vary
+        raw2 = dict(raw, **{key: new})
+        try:
+            fresh = str(mk_sid(raw2))
+            o2 = mk_sid(raw)
+            str(o2)
+            setattr(o2, attr, new)
+            again = str(o2)
+        except Exception:  # noqa  (not every neighbour is a valid id; construction problems are reported above)
+            continue
+        if again != fresh:
+            ctx.fail(f"C13/ScenarioID.__str__/stale-after-setting/{attr}",
+                     f"id printed as {s!r}, then {attr} = {new!r}: prints {again!r}, an id built with these fields prints {fresh!r}", case)
+            break
 
 
 def oracle_sol(ctx, case, sid, sol, bid):
